@@ -60,6 +60,9 @@ use std::sync::Arc;
 use std::time::Instant;
 use tracing::info;
 
+#[cfg(feature = "verif-hooks")]
+use crate::verif_hooks as vh;
+
 /// Cleanup token returned by Phase 1 of KG drop.
 /// Carries the data needed for Phase 2 (slow file I/O cleanup).
 pub struct KgDropCleanup {
@@ -194,6 +197,8 @@ impl StorageEngine {
         }
 
         // Block creation if a same-name KG is being dropped (prevents RC-2)
+        #[cfg(feature = "verif-hooks")]
+        vh::before_lock("se.create.dropping", &|| self.dropping_kgs.is_locked_exclusive());
         if self.dropping_kgs.read().contains(name) {
             return Err(StorageError::Other(format!(
                 "Knowledge graph '{name}' is being dropped, cannot create"
@@ -202,6 +207,8 @@ impl StorageEngine {
 
         // Atomic check-and-insert to prevent TOCTOU race
         use dashmap::mapref::entry::Entry;
+        #[cfg(feature = "verif-hooks")]
+        vh::before_lock("se.create.map_entry", &|| self.knowledge_graphs.try_get_mut(name).is_locked());
         let entry = self.knowledge_graphs.entry(name.to_string());
         match entry {
             Entry::Occupied(_) => {
@@ -224,6 +231,8 @@ impl StorageEngine {
             }
         }
 
+        #[cfg(feature = "verif-hooks")]
+        vh::yield_point("se.create.inserted");
         // Update system metadata
         self.save_knowledge_graphs_metadata()?;
 
@@ -256,11 +265,17 @@ impl StorageEngine {
         }
 
         // Add to tombstone BEFORE removing from DashMap (ordering matters for RC-2)
+        #[cfg(feature = "verif-hooks")]
+        vh::before_lock("se.drop.tombstone", &|| self.dropping_kgs.is_locked());
         self.dropping_kgs.write().insert(name.to_string());
 
         // Remove from in-memory DashMap (instant)
+        #[cfg(feature = "verif-hooks")]
+        vh::before_lock("se.drop.map_remove", &|| self.knowledge_graphs.try_get_mut(name).is_locked());
         self.knowledge_graphs.remove(name);
 
+        #[cfg(feature = "verif-hooks")]
+        vh::yield_point("se.drop.removed");
         // Save metadata JSON (small file write, fast)
         self.save_knowledge_graphs_metadata()?;
 
@@ -279,6 +294,8 @@ impl StorageEngine {
     pub fn finish_drop_knowledge_graph(&self, cleanup: KgDropCleanup) {
         let start = Instant::now();
         let prefix = format!("{}:", cleanup.name);
+        #[cfg(feature = "verif-hooks")]
+        vh::yield_point("se.drop.finish_start");
         if let Ok(shards) = cleanup.persist.list_shards() {
             for shard in shards.iter().filter(|s| s.starts_with(&prefix)) {
                 let _ = cleanup.persist.delete_shard(shard);
@@ -294,6 +311,8 @@ impl StorageEngine {
             }
         }
         // Remove tombstone - name is now safe to reuse
+        #[cfg(feature = "verif-hooks")]
+        vh::before_lock("se.drop.untombstone", &|| self.dropping_kgs.is_locked());
         self.dropping_kgs.write().remove(&cleanup.name);
         let elapsed_ms = start.elapsed().as_millis() as u64;
         info!(kg = %cleanup.name, elapsed_ms, "kg_drop_finish_complete");
@@ -432,6 +451,8 @@ impl StorageEngine {
                 .knowledge_graphs
                 .get(kg)
                 .ok_or_else(|| StorageError::KnowledgeGraphNotFound(kg.to_string()))?;
+            #[cfg(feature = "verif-hooks")]
+            vh::before_lock("se.insert.view_check", &|| db.is_locked_exclusive());
             let db = db.read();
             if db.rule_exists(relation) {
                 return Err(StorageError::Other(format!(
@@ -469,6 +490,8 @@ impl StorageEngine {
         // to prevent a TOCTOU race where a KG drop starts between the check
         // and the persist call. The read lock allows concurrent inserts but
         // blocks KG drops from marking the KG as dropping until we finish.
+        #[cfg(feature = "verif-hooks")]
+        vh::before_lock("se.insert.dropping", &|| self.dropping_kgs.is_locked_exclusive());
         let dropping_guard = self.dropping_kgs.read();
         if dropping_guard.contains(kg) {
             return Err(StorageError::KnowledgeGraphNotFound(kg.to_string()));
@@ -477,6 +500,8 @@ impl StorageEngine {
         // Generate shard name and logical time
         let shard = format!("{kg}:{relation}");
         let time = self.logical_time.fetch_add(1, Ordering::SeqCst);
+        #[cfg(feature = "verif-hooks")]
+        vh::yield_point("se.insert.time_assigned");
 
         // Create DD-style updates (+1 diff for insert)
         let updates: Vec<Update> = tuples
@@ -500,12 +525,16 @@ impl StorageEngine {
         // Release dropping_kgs guard before acquiring KG write lock
         drop(dropping_guard);
 
+        #[cfg(feature = "verif-hooks")]
+        vh::yield_point("se.insert.persisted");
         // Update in-memory state
         let db = self
             .knowledge_graphs
             .get(kg)
             .ok_or_else(|| StorageError::KnowledgeGraphNotFound(kg.to_string()))?;
 
+        #[cfg(feature = "verif-hooks")]
+        vh::before_lock("se.insert.kg_write", &|| db.is_locked());
         let mut db = db.write();
         db.insert_in_memory(relation, tuples, time)
     }
@@ -580,6 +609,8 @@ impl StorageEngine {
         }
 
         // Hold dropping_kgs read guard across the persist operation (same as insert)
+        #[cfg(feature = "verif-hooks")]
+        vh::before_lock("se.delete.dropping", &|| self.dropping_kgs.is_locked_exclusive());
         let dropping_guard = self.dropping_kgs.read();
         if dropping_guard.contains(kg) {
             return Err(StorageError::KnowledgeGraphNotFound(kg.to_string()));
@@ -588,6 +619,8 @@ impl StorageEngine {
         // Generate shard name and logical time
         let shard = format!("{kg}:{relation}");
         let time = self.logical_time.fetch_add(1, Ordering::SeqCst);
+        #[cfg(feature = "verif-hooks")]
+        vh::yield_point("se.delete.time_assigned");
 
         // Create DD-style updates (-1 diff for delete)
         let updates: Vec<Update> = tuples
@@ -602,12 +635,16 @@ impl StorageEngine {
         // Release dropping_kgs guard before acquiring KG write lock
         drop(dropping_guard);
 
+        #[cfg(feature = "verif-hooks")]
+        vh::yield_point("se.delete.persisted");
         // Update in-memory state
         let db = self
             .knowledge_graphs
             .get(kg)
             .ok_or_else(|| StorageError::KnowledgeGraphNotFound(kg.to_string()))?;
 
+        #[cfg(feature = "verif-hooks")]
+        vh::before_lock("se.delete.kg_write", &|| db.is_locked());
         let mut db = db.write();
         db.delete_in_memory(relation, &tuples, time)
     }
@@ -642,6 +679,8 @@ impl StorageEngine {
 
         // Get snapshot atomically - O(1), no lock needed
         let snapshot = {
+            #[cfg(feature = "verif-hooks")]
+            vh::before_lock("se.query.kg_read", &|| db.is_locked_exclusive());
             let db_guard = db.read();
             db_guard.snapshot()
         };
@@ -672,6 +711,8 @@ impl StorageEngine {
 
         // Get snapshot atomically - O(1), no lock needed
         let snapshot = {
+            #[cfg(feature = "verif-hooks")]
+            vh::before_lock("se.query.kg_read", &|| db.is_locked_exclusive());
             let db_guard = db.read();
             db_guard.snapshot()
         };
@@ -696,6 +737,8 @@ impl StorageEngine {
             .ok_or_else(|| StorageError::KnowledgeGraphNotFound(kg.to_string()))?;
 
         let snapshot = {
+            #[cfg(feature = "verif-hooks")]
+            vh::before_lock("se.query.kg_read", &|| db.is_locked_exclusive());
             let db_guard = db.read();
             db_guard.snapshot()
         };
@@ -782,6 +825,8 @@ impl StorageEngine {
             .ok_or_else(|| StorageError::KnowledgeGraphNotFound(kg.to_string()))?;
 
         let snapshot = {
+            #[cfg(feature = "verif-hooks")]
+            vh::before_lock("se.query.kg_read", &|| db.is_locked_exclusive());
             let db_guard = db.read();
             db_guard.snapshot()
         };
@@ -811,6 +856,8 @@ impl StorageEngine {
 
         // Save HNSW indexes for this knowledge graph (#19)
         if let Some(kg_arc) = self.knowledge_graphs.get(name) {
+            #[cfg(feature = "verif-hooks")]
+            vh::before_lock("se.save.kg_read", &|| kg_arc.is_locked_exclusive());
             let kg = kg_arc.read();
             if let Some(ref dd) = kg.incremental {
                 let idx_mgr = dd.index_manager();
@@ -918,6 +965,8 @@ impl StorageEngine {
             .get(kg)
             .ok_or_else(|| StorageError::KnowledgeGraphNotFound(kg.to_string()))?;
 
+        #[cfg(feature = "verif-hooks")]
+        vh::before_lock("se.register_rule.kg_write", &|| db.is_locked());
         let mut db = db.write();
         db.register_rule(rule_def)
             .map_err(|e| StorageError::Other(format!("Failed to register rule: {e}")))
@@ -1396,6 +1445,8 @@ impl StorageEngine {
 
         // Get snapshot atomically - O(1), no lock needed
         let snapshot = {
+            #[cfg(feature = "verif-hooks")]
+            vh::before_lock("se.query.kg_read", &|| db.is_locked_exclusive());
             let db_guard = db.read();
             db_guard.snapshot()
         };
@@ -1428,6 +1479,8 @@ impl StorageEngine {
             .get(kg)
             .ok_or_else(|| StorageError::KnowledgeGraphNotFound(kg.to_string()))?;
 
+        #[cfg(feature = "verif-hooks")]
+        vh::before_lock("se.snapshot.kg_read", &|| db.is_locked_exclusive());
         let db_guard = db.read();
         Ok(db_guard.snapshot())
     }
@@ -1447,6 +1500,8 @@ impl StorageEngine {
 
         // Get snapshot atomically - O(1), no lock needed
         let snapshot = {
+            #[cfg(feature = "verif-hooks")]
+            vh::before_lock("se.query.kg_read", &|| db.is_locked_exclusive());
             let db_guard = db.read();
             db_guard.snapshot()
         };
@@ -1481,6 +1536,8 @@ impl StorageEngine {
 
         // Get snapshot atomically - O(1), no lock needed
         let snapshot = {
+            #[cfg(feature = "verif-hooks")]
+            vh::before_lock("se.query.kg_read", &|| db.is_locked_exclusive());
             let db_guard = db.read();
             db_guard.snapshot()
         };
@@ -1565,6 +1622,8 @@ impl StorageEngine {
             .get(kg)
             .ok_or_else(|| StorageError::KnowledgeGraphNotFound(kg.to_string()))?;
 
+        #[cfg(feature = "verif-hooks")]
+        vh::before_lock("se.relation_metadata.kg_read", &|| db.is_locked_exclusive());
         let db = db.read();
         if let Some(rel_meta) = db.metadata.relations.get(name) {
             let columns = if let Some(schema) = db.schema_catalog.get(name) {
@@ -1827,6 +1886,12 @@ impl StorageEngine {
             return Err(e.into());
         }
 
+        #[cfg(feature = "verif-hooks")]
+        vh::before_lock("se.save_metadata.kg_reads", &|| {
+            self.knowledge_graphs
+                .iter()
+                .any(|e| e.value().is_locked_exclusive())
+        });
         let knowledge_graphs: Vec<_> = self
             .knowledge_graphs
             .iter()
@@ -2317,6 +2382,8 @@ impl KnowledgeGraph {
             }
         }
 
+        #[cfg(feature = "verif-hooks")]
+        vh::yield_point("kg.insert_in_memory.applied");
         // Publish new snapshot for lock-free reads (only if data actually changed)
         if new_count > 0 {
             self.publish_snapshot();
@@ -2398,6 +2465,8 @@ impl KnowledgeGraph {
                 }
             }
 
+            #[cfg(feature = "verif-hooks")]
+            vh::yield_point("kg.delete_in_memory.applied");
             // Publish new snapshot for lock-free reads
             self.publish_snapshot();
         }
